@@ -16,6 +16,7 @@ import hashlib
 import importlib
 import json
 import os
+import re
 import sys
 import time
 import traceback
@@ -289,6 +290,9 @@ def run_unit(name, tier):
     out["functions"] = [f for f in r["functions"] if f["function"] != "__verif_canary"]
     exec_fns = [f["function"] for f in out["functions"]]
     exp_fns = list(getattr(unit, "FUNCTIONS", []))
+    # a helper the unit declares optional is expected only while the code under contract still has it (the generated text then defines it)
+    gen_text = open(b["path"], encoding="utf-8").read()
+    exp_fns = [f for f in exp_fns if f not in getattr(unit, "OPTIONAL_FUNCTIONS", []) or re.search(r"\bfn %s\b" % re.escape(f), gen_text)]
     lost = [f for f in exp_fns if f not in exec_fns]
     if lost:
         out["undecided"] = "functions expected under contract were not verified by Verus: %s" % lost
